@@ -159,6 +159,17 @@ class LaxBoundedSemaphore(_Semaphore):
             _Semaphore.__init__(self, value)
             self._initial_value = value
 
+        def shrink(self):
+            # wait for a free slot, then lower the bound and take the slot
+            # away in one step: if the bound is lowered first, a release()
+            # that finds the value at the new bound is dropped, and the
+            # slot taken afterwards is lost for good.
+            with self._cond:
+                while self._value == 0:
+                    self._cond.wait()
+                self._initial_value -= 1
+                self._value -= 1
+
         def grow(self):
             with self._cond:
                 self._initial_value += 1
